@@ -183,8 +183,7 @@ class Codec:
         if isinstance(t, N):
             d, _ = self.env.lookup(t)
             if isinstance(d, En):
-                b = d.base_prim
-                put_uvarint(out, zigzag(v) if b in SIGNED else v)
+                self.enc_prim(d.base_prim, v, out)
                 return
             for (fn, ft), fv in zip(record_fields(self.env, t), v, strict=True):
                 self.enc(ft, fv, out)
@@ -241,7 +240,10 @@ class Codec:
             lo, hi = INT_RANGE[name]
             if not (lo <= v <= hi):
                 raise CodecError("%d out of range for %s" % (v, name))
-            put_uvarint(out, zigzag(v) if name in SIGNED else v)
+            if name in ("int8", "uint8"):
+                out.append(v & 0xFF)      # 8-bit integers: one raw byte (two's complement)
+            else:
+                put_uvarint(out, zigzag(v) if name in SIGNED else v)
         elif name == "float32":
             out += struct.pack("<I", v.bits)
         elif name == "float64":
@@ -267,13 +269,7 @@ class Codec:
         if isinstance(t, N):
             d, _ = self.env.lookup(t)
             if isinstance(d, En):
-                b = d.base_prim
-                u = r.uvarint()
-                v = unzigzag(u) if b in SIGNED else u
-                lo, hi = INT_RANGE[b]
-                if not (lo <= v <= hi):
-                    raise CodecError("enum value %d out of range of base %s" % (v, b))
-                return v
+                return self.dec_prim(d.base_prim, r)
             return [self.dec(ft, r) for fn, ft in record_fields(self.env, t)]
         if isinstance(t, U):
             idx = r.uvarint()
@@ -318,6 +314,11 @@ class Codec:
             if b > 1:
                 raise CodecError("bool byte %d at %d" % (b, r.p))
             return b == 1
+        if name == "uint8":
+            return r.byte()
+        if name == "int8":
+            b = r.byte()
+            return b - 256 if b >= 128 else b
         if name in INT_RANGE:
             u = r.uvarint()
             v = unzigzag(u) if name in SIGNED else u
